@@ -23,6 +23,10 @@ var collIn = vkit.NewCollector("C14", "TestAckedInProcess", "1-3 cycles of 1-10 
 
 func TestAckedInProcess(t *testing.T) { vkit.Check(t, collIn, GenInProc, RunInProc) }
 
+var collFirst = vkit.NewCollector("C14", "TestFirstOpenInterrupted", "the very first open of a database file is interrupted once or twice: the k-th statement executed while opening (k = 1-10: pragmas, schema bookkeeping, migration) fails before running, or runs and loses its reply, or the k-th commit is rolled back; the handle is dropped. Then the file is opened normally twice: it must open, show exactly the acknowledged events, accept 1-4 appends and a saved offset per session and keep them. Non-trivial = the first open did fail.")
+
+func TestFirstOpenInterrupted(t *testing.T) { vkit.Check(t, collFirst, GenFirstOpen, RunFirstOpen) }
+
 var collKC = vkit.NewCollector("C14", "TestKillConcurrent", "a child process appends 2-10 events of 0-70000 bytes from each of 2-8 goroutines at once to one SQLite file (a write refused with SQLITE_BUSY is retried), printing one acknowledgement per append after Append returned; the parent sends SIGKILL after the k-th acknowledgement (plus 0-800 us), reopens the file twice and audits it. Oracle: every acknowledged event is present at its acknowledged offset, nothing is stored twice, at most one unacknowledged event per writer, offsets increase, an append after reopening gets an offset above everything acknowledged or stored. Non-trivial = >=2 writers and acknowledged appends before the kill.")
 
 func TestKillConcurrent(t *testing.T) { vkit.Check(t, collKC, GenKillConc, RunKillConc) }
@@ -33,5 +37,5 @@ func TestKillReopen(t *testing.T) { vkit.Check(t, coll, Gen, Run) }
 
 func TestReplay(t *testing.T) {
 	r := vkit.NeedReplay(t)
-	_ = vkit.ReplayCase(t, r, coll, Run) || vkit.ReplayCase(t, r, collIn, RunInProc) || vkit.ReplayCase(t, r, collKC, RunKillConc)
+	_ = vkit.ReplayCase(t, r, coll, Run) || vkit.ReplayCase(t, r, collIn, RunInProc) || vkit.ReplayCase(t, r, collKC, RunKillConc) || vkit.ReplayCase(t, r, collFirst, RunFirstOpen)
 }
